@@ -103,7 +103,7 @@ func init() {
 				kind int // 0 world op, 1 compile independent, 2 expr
 				expr string
 			}
-			names = append(names, "pr.callforms", "pr.dirforms", "pr.funcforms", "pr.pluralforms") // every built-in function and directive, every call form that hands the shared maps to a callee together with params
+			names = append(names, "pr.callforms", "pr.dirforms", "pr.funcforms", "pr.pluralforms", "pr.samewords1", "pr.samewords2") // every built-in function and directive, every call form that hands the shared maps to a callee together with params
 			exprs := []string{"1 + 2 * 3", "['a': 1, 'b': [1,2]].b[1] + 'x'", "round(2.5) + max(1, 2)", "$a.b ?: 1 < 'a'"}
 			var menu []opT
 			for _, n := range names {
